@@ -85,3 +85,61 @@ func C01_LongKeys() {
 		caches: []int{0, 1, 10000}, fast: []bool{true, false}, thresh: []int{0, 101}, auditOld: true, nilKeys: 3}
 	vStartHist(cfg).run()
 }
+
+var _ = vReg("C01_LoadOlder", C01_LoadOlder)
+
+// C01_LoadOlder: LoadVersion(v) for every retained v, on a fresh tree object or on the same object —
+// optionally with an uncommitted write that the load discards. Every read of the loaded state equals
+// version v of the model (also the reads served through the fast index and its uncommitted overlay),
+// and so does the state with one more uncommitted write on top.
+func C01_LoadOlder() {
+	cfg, maxV, maxW := c04cfg("C01_LoadOlder")
+	cfg.thresh = []int{0}
+	cfg.caches = []int{10000, 0}
+	h := vStartHist(cfg)
+	h.vBuildVersions(maxV, maxW)
+	if h.latest == 0 {
+		vStop()
+	}
+	n := h.p.n
+	sameObject := vChoice("same-object", 2) == 1
+	if sameObject {
+		// a pending write that the load must discard
+		if c := vChoice("pending", 2*n+1); c > 0 {
+			if c-1 < n {
+				h.doSet(c - 1)
+			} else {
+				h.doRemove(c - 1 - n)
+			}
+			vCover("load-discards-a-pending-write")
+		}
+	} else {
+		h.open()
+	}
+	target := h.first + int64(vChoice("target", int(h.latest-h.first+1)))
+	lv, err := h.tree.LoadVersion(target)
+	vAssert(err == nil, "c01:loadversion-err")
+	vAssert(lv == h.latest, "c01:loadversion-returns-latest")
+	h.work = h.vers[target].clone()
+	h.workRef = h.refRoots[target]
+	h.dirty = false
+	vAuditReads(h.tree, h.p, h.work, "c01:loaded")
+	if target < h.latest {
+		vCover("older-version-loaded")
+	}
+	// one more uncommitted write on top of the loaded version
+	if c := vChoice("then", 2*n+1); c > 0 {
+		if c-1 < n {
+			h.doSet(c - 1)
+		} else {
+			h.doRemove(c - 1 - n)
+		}
+		vAuditReads(h.tree, h.p, h.work, "c01:loaded+write")
+	}
+	// the committed versions are what they were
+	for v := h.first; v <= h.latest; v++ {
+		it, err := h.tree.GetImmutable(v)
+		vAssert(err == nil, "c01:loaded:getimmutable")
+		vAuditReads(it, h.p, h.vers[v], "c01:loaded:old")
+	}
+}
